@@ -1,0 +1,40 @@
+/*
+ * Vector Network Analyzer Library -- verification hooks
+ *
+ * Annotations for deductive verification with CBMC (function-external
+ * contracts live outside this repository; loop contracts and ghost
+ * assertions have to sit inside function bodies).  Everything in this
+ * header expands to nothing unless LIBVNA_VERIF is defined, which the
+ * ordinary build never does.
+ */
+#ifndef LIBVNA_VERIF_H
+#define LIBVNA_VERIF_H
+
+#ifdef LIBVNA_VERIF
+
+/* loop contract: placed between the loop head and the loop body */
+#define VERIF_LOOP_CONTRACT(assigns_, invariant_, decreases_) \
+    __CPROVER_assigns assigns_ \
+    __CPROVER_loop_invariant(invariant_) \
+    __CPROVER_decreases(decreases_)
+
+/* ghost assertion: an intermediate fact the caller-visible contract needs */
+#define VERIF_GHOST_ASSERT(cond, msg)	__CPROVER_assert((cond), msg)
+
+/* cut point: the check may end symbolic execution here (see /verif) */
+#define VERIF_CUT(name) \
+    do { \
+	extern _Bool verif_cut_##name; \
+	if (verif_cut_##name) \
+	    __CPROVER_assume(0); \
+    } while (0)
+
+#else /* !LIBVNA_VERIF */
+
+#define VERIF_LOOP_CONTRACT(assigns_, invariant_, decreases_)
+#define VERIF_GHOST_ASSERT(cond, msg)	((void)0)
+#define VERIF_CUT(name)			((void)0)
+
+#endif /* LIBVNA_VERIF */
+
+#endif /* LIBVNA_VERIF_H */
